@@ -2,7 +2,7 @@ SPECIFICATION Spec
 CONSTANTS
   Fact = {"A", "B"}
   Signer = {1, 2}
-  MaxAdd = 4
+  MaxAdd = 3
   MaxReSet = 0
   MaxCalls = 3
   Limits = {1, 2, 5}
